@@ -209,7 +209,7 @@ func allPairs(n int) [][2]int {
 
 func fakeWorlds(r *core.Run) {
 	rd := r.Rand
-	for w := 0; w < r.N(6, 220); w++ {
+	for w := 0; w < r.N(18, 700); w++ {
 		ids := [][]byte{clientID(rd, 5+rd.Intn(12)), clientID(rd, 5+rd.Intn(12)), clientID(rd, 5+rd.Intn(40))}
 		if w%5 == 1 { // ids that are prefixes / extensions of one another, incl. the v1 file name suffixes
 			ids[1] = append(append([]byte{}, ids[0]...), []byte("_storage")...)
@@ -257,7 +257,7 @@ func grpcCases(r *core.Run) {
 	ids := [][]byte{TLSClientID(0), TLSClientID(1), TLSClientID(2)}
 	r.Extra["tls_client_ids"] = []string{string(ids[0]), string(ids[1]), string(ids[2])}
 	rpcs := []struct{ rpc, kind string }{{"Decrypt", "struct"}, {"DecryptSym", "block"}, {"DecryptSearchable", "struct"}, {"DecryptSymSearchable", "block"}}
-	for w := 0; w < r.N(3, 60); w++ {
+	for w := 0; w < r.N(5, 150); w++ {
 		world := newWorld(rd, ids)
 		toks := identTokens(world)
 		for _, p := range allPairs(3) {
@@ -294,10 +294,85 @@ func grpcCases(r *core.Run) {
 	}
 }
 
+// translatorCases: the remaining RPCs through the real TLS wrapper (tokens, encrypt-type, query hash) and the
+// HTTP API over real TLS connections. Implementation only (direct property oracles); values produced here
+// are then pushed through the model-compared `C02.as` ops.
+func translatorCases(r *core.Run) {
+	rd := r.Rand
+	ids := [][]byte{TLSClientID(0), TLSClientID(1), TLSClientID(2)}
+	for w := 0; w < r.N(3, 80); w++ {
+		world := newWorld(rd, ids)
+		h := fmt.Sprintf("tr%d", w)
+		r.Impl("C02.tr.new " + h + " " + identTokens(world))
+		t := target{op: "C02.as", ids: world, what: "translator"}
+		for _, p := range allPairs(3) {
+			a, b := p[0], p[1]
+			A, B := core.Hex(ids[a]), core.Hex(ids[b])
+			// ---- tokens
+			v := append(rd.Bytes(4+rd.Intn(12)), rd.Bytes(markerLen)...)
+			r.Begin(fmt.Sprintf("grpc-token-%d>%d-%x", a, b, v[len(v)-markerLen:]), true, "entry:grpc-token", fmt.Sprintf("pair:%d>%d", a, b))
+			out := r.Impl(fmt.Sprintf("C02.tr.grpc %s Tokenize %s %s %s", h, A, B, core.Hex(v)))
+			tok, ok := okValue(out)
+			if r.Check(ok && !bytes.Equal(tok, v), "tokenize", "Tokenize through the TLS wrapper failed: "+trunc(out)) {
+				out = r.Impl(fmt.Sprintf("C02.tr.grpc %s Detokenize %s %s %s", h, B, A, core.Hex(tok)))
+				got, ok := okValue(out)
+				r.Check(ok && bytes.Equal(got, tok), "tls-forged-id", fmt.Sprintf("Detokenize over connection #%d naming #%d did not return the token unchanged: %s", b, a, trunc(out)))
+				out = r.Impl(fmt.Sprintf("C02.tr.grpc %s Detokenize %s %s %s", h, A, B, core.Hex(tok)))
+				got, ok = okValue(out)
+				r.Check(ok && bytes.Equal(got, v), "tls-owner", "Detokenize over the owner's connection (request naming another id) did not return the value: "+trunc(out))
+				out = r.Impl(fmt.Sprintf("C02.tr.grpc %s Detokenize none %s %s", h, A, core.Hex(tok)))
+				r.Check(out == core.Err, "tls-no-peer", "Detokenize without a TLS peer was not refused")
+			}
+			// ---- encrypt-type RPCs over connection b with a forged id a: the result belongs to b
+			m, marker, _ := plaintext(rd)
+			for _, rc := range []struct{ rpc, kind string }{{"Encrypt", "struct"}, {"EncryptSym", "block"}, {"EncryptSearchable", "struct"}, {"EncryptSymSearchable", "block"}} {
+				r.Begin(fmt.Sprintf("grpc-%s-%d>%d-%x", rc.rpc, a, b, marker), true, "entry:grpc-encrypt", "rpc:"+rc.rpc)
+				f := strings.Fields(r.Impl(fmt.Sprintf("C02.tr.grpc %s %s %s %s %s", h, rc.rpc, B, A, core.Hex(m))))
+				if !r.Check(len(f) >= 2 && f[0] == "ok", "grpc-encrypt", rc.rpc+" through the TLS wrapper failed") {
+					continue
+				}
+				c := core.UnHex(f[len(f)-1])
+				if bytes.Equal(c, m) {
+					continue // the plaintext looked like a protected value and was passed through
+				}
+				out = r.Do(t.line("tr.decrypt", a, rc.kind, c, "none"))
+				r.Check(!leaks(out, m, marker), "tls-forged-id", fmt.Sprintf("%s over connection #%d naming #%d produced a value that #%d can read", rc.rpc, b, a, a))
+				out = r.Do(t.line("tr.decrypt", b, rc.kind, c, "none"))
+				r.Check(leaks(out, m, marker), "tls-owner", rc.rpc+": the connection's own identity cannot read the value it encrypted")
+				if len(f) == 3 { // searchable: the hash is the connection identity's
+					out = r.Do(t.line("hash.verify", b, rc.kind, m, f[1]))
+					r.Check(out == "true", "tls-owner", rc.rpc+": the hash does not verify under the connection's identity")
+					out = r.Do(t.line("hash.verify", a, rc.kind, m, f[1]))
+					r.Check(out == "false", "tls-forged-id", rc.rpc+": the hash verifies under the identity named in the request")
+				}
+			}
+			r.Begin(fmt.Sprintf("grpc-queryhash-%d>%d-%x", a, b, marker), true, "entry:grpc-encrypt", "rpc:GenerateQueryHash")
+			out = r.Impl(fmt.Sprintf("C02.tr.grpc %s GenerateQueryHash %s %s %s", h, B, A, core.Hex(m)))
+			hb := r.Do(fmt.Sprintf("C02.hash.gen %s %s", core.Hex(world[b].hmac), core.Hex(m)))
+			r.Check(out == "ok "+hb, "tls-forged-id", "GenerateQueryHash over connection b naming a did not use b's key")
+			// ---- HTTP API over a TLS connection of b (a "client_id" smuggled into the JSON body is ignored)
+			for _, kind := range []string{"struct", "block"} {
+				m, marker, _ := plaintext(rd)
+				r.Begin(fmt.Sprintf("http-%s-%d>%d-%x", kind, a, b, marker), true, "entry:http", "kind:"+kind)
+				vv, ok := env.Protect(r, kind, writerView(rd, world[a].kv), m)
+				if !ok || bytes.Equal(vv, m) {
+					continue
+				}
+				op := map[string]string{"struct": "decrypt", "block": "decryptSym"}[kind]
+				out = r.Impl(fmt.Sprintf("C02.tr.http %s %s %d %s %s", h, op, b, core.Hex(vv), A))
+				r.Check(!leaks(out, m, marker) && !strings.HasPrefix(out, "200"), "http-cross-client", fmt.Sprintf("HTTP %s over a TLS connection of #%d returned %s for a value of #%d", op, b, trunc(out), a))
+				out = r.Impl(fmt.Sprintf("C02.tr.http %s %s %d %s %s", h, op, a, core.Hex(vv), B))
+				r.Check(out == "200 "+core.Hex(m), "http-owner", "HTTP "+op+" over the owner's TLS connection did not return the plaintext: "+trunc(out))
+			}
+		}
+		r.Impl("C02.tr.close " + h)
+	}
+}
+
 func tokenCases(r *core.Run) {
 	rd := r.Rand
 	const tyBytes = 4 // TokenType_Bytes
-	for w := 0; w < r.N(25, 1500); w++ {
+	for w := 0; w < r.N(60, 4000); w++ {
 		ids := [][]byte{clientID(rd, 5+rd.Intn(8)), clientID(rd, 5+rd.Intn(8)), clientID(rd, 5+rd.Intn(8))}
 		n := 1 + rd.Intn(6)
 		type op struct {
@@ -381,7 +456,7 @@ func realStores(r *core.Run) {
 		format string
 		cache  string
 	}{{"v1", "0"}, {"v1", "1"}, {"v2mem", "0"}, {"v2dir", "0"}}
-	for w := 0; w < r.N(1, 12); w++ {
+	for w := 0; w < r.N(2, 30); w++ {
 		for fi, f := range formats {
 			h := fmt.Sprintf("ks%d_%d", w, fi)
 			master, sig := rd.Bytes(32), rd.Bytes(32)
@@ -608,6 +683,7 @@ func run(r *core.Run) {
 	r.Rule = "3 identities × all ordered pairs × both envelopes × every reveal-type entry point (registry Process, AcraTranslator Decrypt/DecryptSym/DecryptSearchable/DecryptSymSearchable, column detector with/without compat wrapper incl. bare envelopes and junk around, blind-index check, de-tokenization) under the OTHER identity; key histories of 1–4 generations on both sides with the value written under any generation; key stores: fake (by-id map), real v1 directory (with/without cache), real v2 in-memory and directory; ids incl. prefix/suffix-related ones; colliding 2-byte key ids; missing/empty key sets; gRPC through the real TLS wrapper with a real handshake and forged ClientId fields; keystore.load-as by copying key files / rings between identities; non-trivial = a value the owner can read back; distinct by (store, kind, pair, marker)"
 	fakeWorlds(r)
 	grpcCases(r)
+	translatorCases(r)
 	tokenCases(r)
 	realStores(r)
 }
